@@ -338,3 +338,111 @@ def load_path(ctx, path):
         _io_end(ctx)
     ctx.extra['__store__'] = obj
     return snapshot(obj)
+
+
+# ---------------------------------------------------------------------------
+# images (C16)
+# ---------------------------------------------------------------------------
+
+@op('img_save')
+def img_save(ctx, img, path, via='hp', depth=8, scaling='auto'):
+    import holopy as hp
+    o = val(ctx, img)
+    ctx.extra['saved'] = o
+    _io_begin(ctx)
+    try:
+        if via == 'hp':
+            hp.save(_path(ctx, path), o)
+        else:
+            sc = scaling if not isinstance(scaling, list) else tuple(scaling)
+            hp.save_image(_path(ctx, path), o, scaling=sc, depth=depth)
+    finally:
+        _io_end(ctx)
+    return {'saved': o}
+
+
+@op('img_load')
+def img_load(ctx, path):
+    import holopy as hp
+    _io_begin(ctx)
+    try:
+        return hp.load(_path(ctx, path))
+    finally:
+        _io_end(ctx)
+
+
+@op('img_save_stream')
+def img_save_stream(ctx, img):
+    import holopy as hp
+    o = val(ctx, img)
+    s = _io.BytesIO()
+    hp.save(s, o)
+    ctx.extra['__store__'] = s.getvalue()
+    return {'nbytes': len(s.getvalue()), 'saved': o}
+
+
+@op('img_load_stream')
+def img_load_stream(ctx, blob):
+    import holopy as hp
+    return hp.load(_io.BytesIO(val(ctx, blob)))
+
+
+@op('load_image')
+def load_image(ctx, path, spacing=None, channel=None, optics=None, name=None):
+    import holopy as hp
+    kw = optics_kwargs(ctx, optics)
+    ch = channel if not isinstance(channel, list) else list(channel)
+    return hp.load_image(_path(ctx, path), spacing=val(ctx, spacing),
+                         channel=ch, name=name, **kw)
+
+
+@op('load_average')
+def load_average(ctx, paths=None, directory=None, refimg=None, spacing=None,
+                 optics=None, channel=None, image_glob='*.tif'):
+    from holopy.core.io.io import load_average as la
+    kw = optics_kwargs(ctx, optics)
+    if directory is not None:
+        fp = _path(ctx, directory)
+    else:
+        fp = [_path(ctx, p) for p in paths]
+    return la(fp, refimg=val(ctx, refimg) if refimg is not None else None,
+              spacing=val(ctx, spacing), channel=channel,
+              image_glob=image_glob, **kw)
+
+
+@op('set_glob_seed')
+def set_glob_seed(ctx, seed):
+    """F5: directory listings come back in a seeded permutation."""
+    from sim import seams
+    seams.GLOB.perm_seed = seed
+    return None
+
+
+@op('mkdir')
+def mkdir(ctx, path):
+    os.makedirs(_path(ctx, path), exist_ok=True)
+    return None
+
+
+@op('update_metadata')
+def update_metadata_op(ctx, img, optics):
+    from holopy.core.metadata import update_metadata
+    return update_metadata(val(ctx, img), **optics_kwargs(ctx, optics))
+
+
+@op('raw_tiff')
+def raw_tiff(ctx, path, shape, seed, mode='L', channels=None):
+    """A plain raster image written with PIL (not by HoloPy)."""
+    from PIL import Image
+    rs = np.random.RandomState(seed)
+    if channels:
+        arr = rs.randint(0, 256, size=list(shape) + [channels]).astype('uint8')
+        Image.fromarray(arr, 'RGB' if channels == 3 else 'RGBA').save(
+            _path(ctx, path))
+    elif mode == 'I;16':
+        arr = rs.randint(0, 60000, size=shape).astype('uint16')
+        Image.fromarray(arr).save(_path(ctx, path))
+    else:
+        arr = rs.randint(0, 256, size=shape).astype('uint8')
+        Image.fromarray(arr).save(_path(ctx, path))
+    return arr
